@@ -19,7 +19,16 @@ import hugr.model as model
 from hugr._serialization.ops import OpType as SerialOp
 from hugr._serialization.serial_hugr import SerialHugr
 from hugr.exceptions import ParentBeforeChild
-from hugr.ops import Call, Const, Custom, DataflowOp, Module, Op
+from hugr.ops import (
+    Call,
+    Const,
+    Custom,
+    DataflowOp,
+    LoadConst,
+    LoadFunc,
+    Module,
+    Op,
+)
 from hugr.tys import Kind, Type, ValueKind
 from hugr.utils import BiMap
 from hugr.val import Value
@@ -715,12 +724,33 @@ class Hugr(Mapping[Node, NodeData], Generic[OpVarCov]):
             metadata=[node.metadata if node.metadata else None for _, node in live],
         )
 
+    def _order_port_offset(self, node: Node, direction: Direction) -> PortOffset | None:
+        """The offset of the state order port of `node` in the serialized HUGR:
+        the first port after the value ports and the static input port of its
+        operation. None if the operation has no state order port.
+        """
+        op = self[node].op
+        static_in = 0
+        if isinstance(op, Call):
+            sig = op.instantiation
+            static_in = 1
+        elif isinstance(op, DataflowOp):
+            sig = op.outer_signature()
+            static_in = int(isinstance(op, LoadConst | LoadFunc))
+        else:
+            return None
+        if direction == Direction.INCOMING:
+            return len(sig.input) + static_in
+        return len(sig.output)
+
     def _constrain_offset(self, p: P) -> PortOffset:
         # An offset of -1 is a special case, indicating an order edge,
         # not counted in the number of ports.
         if p.offset < 0:
             assert p.offset == -1, "Only order edges are allowed with offset < 0"
-            offset = self.num_ports(p.node, p.direction)
+            offset = self._order_port_offset(p.node, p.direction)
+            if offset is None:
+                offset = self.num_ports(p.node, p.direction)
         else:
             offset = p.offset
 
@@ -767,12 +797,23 @@ class Hugr(Mapping[Node, NodeData], Generic[OpVarCov]):
             )
             assert n.idx == idx, "Nodes should be added contiguously"
 
+        def get_offset(
+            node: Node, offset: PortOffset | None, direction: Direction
+        ) -> PortOffset:
+            # the state order port is stored as offset -1
+            if offset == hugr._order_port_offset(node, direction):
+                return -1
+            assert offset is not None
+            return offset
+
         for (src_node, src_offset), (dst_node, dst_offset) in serial.edges:
             if src_offset is None or dst_offset is None:
                 continue
+            src = Node(src_node, _metadata=get_meta(src_node))
+            dst = Node(dst_node, _metadata=get_meta(dst_node))
             hugr.add_link(
-                Node(src_node, _metadata=get_meta(src_node)).out(src_offset),
-                Node(dst_node, _metadata=get_meta(dst_node)).inp(dst_offset),
+                src.out(get_offset(src, src_offset, Direction.OUTGOING)),
+                dst.inp(get_offset(dst, dst_offset, Direction.INCOMING)),
             )
 
         return hugr
